@@ -417,7 +417,7 @@ def run(chk):
     cases = exhaustive_cases()
     total = len(cases)
     if quick:
-        cases = rng.sample(cases, 150)
+        cases = rng.sample(cases, 130)
     by_text = collections.defaultdict(list)
     for level, meta, cfg in cases:
         by_text[(level, tuple(meta))].append(cfg)
